@@ -18,7 +18,7 @@ LEVEL_NOTE = ("Trusted: virtual clock (the reference run is reproducible, so 'af
               "encoding used by the recovery-budget model (shared with C08).")
 DESIGN_REF = "§5 C12"
 RULE = "case = (deterministic program, pause tick k); all k of each program are enumerated; distinct = hash of (program, k, state summary); non-trivial = pause state has queued or running work"
-REQUIRED_REACH = ["pause_point", "resumed_run", "result_compare", "state_compare", "retry_continuity_eval", "resumed_in_flight_retry", "fixed_point_eval", "fixed_point_with_waiter", "pause_with_collected", "queue_entry_roundtrip_eval", "queued_with_recovery_budget", "queued_with_retry_info", "resumed_run_snapshotted_again", "typed_state_pause_point"]
+REQUIRED_REACH = ["pause_point", "resumed_run", "result_compare", "state_compare", "retry_continuity_eval", "resumed_in_flight_retry", "fixed_point_eval", "fixed_point_with_waiter", "pause_with_collected", "queue_entry_roundtrip_eval", "queued_with_recovery_budget", "queued_with_retry_info", "resumed_run_snapshotted_again", "typed_state_pause_point", "second_generation_resume", "second_generation_resume_with_parallel_invocations", "pause_after_sender_completed", "pause_with_sent_events_not_yet_processed"]
 ASSUMPTIONS = ["workflows are deterministic and idempotent under re-execution by construction (no ctx.send_event, idempotent state writes)"]
 EXHAUSTIVE = False
 
@@ -33,7 +33,8 @@ def gen_case(seed):
     from vf import gen
 
     rnd = random.Random(seed)
-    spec = gen.gen_detq(rnd) if rnd.random() < 0.4 else gen.gen_det(rnd)
+    x = rnd.random()
+    spec = gen.gen_detsend(rnd) if x < 0.1 else gen.gen_detfan(rnd) if x < 0.25 else (gen.gen_detq(rnd) if x < 0.5 else gen.gen_det(rnd))
     if rnd.random() < 0.3:
         spec["typed_state"] = True   # Context[VfState]: containers of a typed state model filled in place
     spec["sched_seed"] = seed
@@ -100,9 +101,19 @@ def check_pause(case, k, snap, ref, acc):
         return
     if not snap.get("is_running") and not busy:
         return  # run had not started / already ended at this pause point: nothing to resume
+    sender = (case["spec"].get("meta") or {}).get("sender")
+    if sender is not None:
+        w_s = snap["workers"].get(sender) or {}
+        if w_s.get("in_progress") or w_s.get("queue") or not any(t["tick"] == "TickStepResult" and t.get("step") == sender for t in tr0.ticks[:ent["ticks"]]):
+            acc.note("pause_before_the_sending_step_completed_skipped")   # re-executing it re-sends: at-least-once, not decided here
+            return
+        acc.hit("pause_after_sender_completed")
+    unprocessed = "TickAddEvent" in (ent.get("recvq") or []) + (ent.get("pulled") or [])
+    if unprocessed:
+        acc.hit("pause_with_sent_events_not_yet_processed")
     # ---- resume
     spec2 = {**case["spec"], "uid_base": 1000}
-    chained = any(w["collected_events"] for w in snap["workers"].values())
+    chained = any(w["collected_events"] for w in snap["workers"].values()) or (case["seed"] * 31 + k) % 3 == 0
     if chained:
         # a partly filled collect buffer travels in this snapshot: the resumed run is itself serialized at every yield point
         # (pause -> resume -> snapshot again), and each of those chained snapshots must describe the resumed run's buffers
@@ -137,15 +148,42 @@ def check_pause(case, k, snap, ref, acc):
     ref_out, out = tr0.outcome, tr2.outcome
     acc.hit("result_compare")
     if out is None:
-        acc.violation({"mech": "resumed_run_never_finishes", "quiescent": tr2.quiescent, "delayed_retry_pending_at_pause": "TickAddEvent" in (ent.get("wakeups") or [])}, f"resumed from tick {k} ({tick['tick']}): run quiescent without finishing; reference {ref_out}", wit)
+        acc.violation({"mech": "resumed_run_never_finishes", "quiescent": tr2.quiescent, "delayed_retry_pending_at_pause": "TickAddEvent" in (ent.get("wakeups") or []),
+                       "sent_events_unprocessed_at_pause": unprocessed}, f"resumed from tick {k} ({tick['tick']}): run quiescent without finishing; reference {ref_out}", wit)
         return
     if out != ref_out:
-        acc.violation({"mech": "resumed_result_differs", "ref_kind": ref_out["kind"], "got_kind": out["kind"]},
+        acc.violation({"mech": "resumed_result_differs", "ref_kind": ref_out["kind"], "got_kind": out["kind"], "sent_events_unprocessed_at_pause": unprocessed},
                       f"resumed from tick {k} ({tick['tick']}): outcome {out} != uninterrupted {ref_out}", wit)
     acc.hit("state_compare")
     s0, s2 = tr0.extra.get("final_state"), tr2.extra.get("final_state")
     if s0 != s2 and out == ref_out:
         acc.violation({"mech": "resumed_state_store_differs"}, f"resumed from tick {k}: state {s2} != uninterrupted {s0}", wit)
+    # ---- second generation: the RESUMED run is paused again (its own to_dict, through JSON) and resumed from there
+    if out == ref_out and snaps2:
+        rnd2 = random.Random(case["seed"] * 7919 + k)
+        cands = [e for e in snaps2 if e.get("snap") and e["snap"].get("is_running")
+                 and any(w["queue"] or w["in_progress"] for w in e["snap"]["workers"].values())]
+        for ent2 in rnd2.sample(cands, min(2, len(cands))):
+            snap2 = ent2["snap"]
+            tr3 = engine_run.run_case({**case["spec"], "uid_base": 2000}, ctx_factory=lambda w: Context.from_dict(w, json.loads(json.dumps(snap2))), start=False)
+            acc.case()
+            if tr3.errors:
+                acc.inconclusive.append(f"harness error in second-generation resume seed={case['seed']} k={k}: {tr3.errors[0][:300]}")
+                continue
+            acc.hit("second_generation_resume")
+            if any(len(w["in_progress"]) >= 2 for w in snap2["workers"].values()):
+                acc.hit("second_generation_resume_with_parallel_invocations")
+            wit3 = {"case": {**case, "k": k, "k2": ent2["k"]}, "phase": "resumed"}
+            if tr3.outcome is None:
+                acc.violation({"mech": "resumed_run_never_finishes", "quiescent": tr3.quiescent, "generation": 2,
+                               "delayed_retry_pending_at_pause": "TickAddEvent" in (ent2.get("wakeups") or [])},
+                              f"paused at tick {k}, resumed, paused again at yield {ent2['k']} of the resumed run, resumed: quiescent without finishing; reference {ref_out}", wit3)
+            elif tr3.outcome != ref_out:
+                acc.violation({"mech": "resumed_result_differs", "ref_kind": ref_out["kind"], "got_kind": tr3.outcome["kind"], "generation": 2},
+                              f"paused at tick {k}, resumed, paused again at yield {ent2['k']} of the resumed run, resumed: outcome {tr3.outcome} != uninterrupted {ref_out}", wit3)
+            elif tr3.extra.get("final_state") != s0:
+                acc.violation({"mech": "resumed_state_store_differs", "generation": 2},
+                              f"second-generation resume (pause {k}, then yield {ent2['k']}): state {tr3.extra.get('final_state')} != uninterrupted {s0}", wit3)
     # ---- retry-number continuity: what was in flight / queued at the pause
     post = tick["post"]
     expected_att = {}
